@@ -33,6 +33,32 @@ Definition cvt (r : result (list (Q * Q))) : result (list (Z * Z)) :=
 '''
 TOL = 1e-9
 
+# The programs regenerated from postprocess.py (Gen/PyCuts.v, language Model/PyImp.v), run inside Coq on the same inputs.
+SRC_IMPORTS = IMPORTS + ['Model.PyImp', 'Gen.PyCuts', 'Proofs.PyCutsProofs']
+SRC_PRELUDE = '''
+From Coq Require Import String.
+Local Open Scope string_scope.
+Definition dec_cl (v : val) : list nat :=
+  match v with VList l => map (fun x => match x with VInt z => Z.to_nat z | _ => 0 end) l | _ => [] end.
+Definition src_out (r : pres (option val)) : nat * list (list nat) :=
+  match r with
+  | POk (Some (VDict d)) => (0, map (fun kv => dec_cl (snd kv)) d)
+  | POk _ => (6, [])
+  | PErr PValueError => (1, []) | PErr PIndexError => (2, []) | PErr PKeyError => (3, [])
+  | PErr PTypeError => (4, []) | PErr PUnbound => (5, [])
+  end.
+Definition src_balanced (D : dendrogram) (m : nat) :=
+  src_out (run_var src_cut_balanced [("dendrogram", embD D); ("max_cluster_size", vnat m)] "cluster").
+Definition src_straight (D0 : dendrogram) (nc : option nat) (th : option Q) (ret : bool) :=
+  match cut_input D0 ret with
+  | Ok D => src_out (run_var src_cut_straight_core
+                       [("dendrogram", embD D); ("n", vnat (S (List.length D))); ("n_clusters", embON nc);
+                        ("threshold", embOQ th)] "cluster")
+  | Err _ => (7, [])
+  end.
+'''
+SRC_ERR = {1: 'ValueError', 2: 'IndexError', 3: 'KeyError', 7: 'IndexError'}
+
 
 # ------------------------------------------------------------------------------------------------
 # dendrogram generation (never through Paris)
@@ -242,6 +268,64 @@ def clusters_expr(c):
     if c['fn'] == 'balanced':
         return 'balanced_clusters D %d' % c['max_cluster_size']
     return '@Err (list (list nat)) ValueError'
+
+
+def src_expr(c):
+    if c['fn'] == 'straight':
+        return 'src_straight D %s %s %s' % (copt(c.get('n_clusters'), cnat), copt(c.get('threshold'), cqf), cbool(c['ret']))
+    if c['fn'] == 'balanced':
+        return 'src_balanced D %d' % c['max_cluster_size']
+    return '(8, @nil (list nat))'
+
+
+def check_source_terms(ctx, plan, impl_out, valsA):
+    """Run the statements regenerated from postprocess.py (cut_balanced's body, cut_straight's core) inside Coq on the
+    dendrograms and arguments the implementation just ran: the `cluster` dict they leave must be the model's (theorems
+    source_cut_*_is_model say so for all inputs; a difference here means the wrappers of this harness are wrong) AND must be
+    the partition the implementation returned (same clusters, same error kind)."""
+    exprs = ['let D := %s in [%s]' % (cdend(rows), '; '.join(src_expr(c) for c in calls)) for (fam, n, rows, calls) in plan]
+    vals = safe_coq_eval(ctx, 'c08s', SRC_IMPORTS, exprs, prelude=SRC_PRELUDE, shard=60)
+    if vals is None:
+        return
+    n_src = 0
+    for k, ((fam, n, rows, calls), got_all, sv_all) in enumerate(zip(plan, impl_out, vals)):
+        cl_all = valsA[k] if valsA is not None else [None] * len(calls)
+        jrows = [[a, b, str(h), s] for (a, b, h, s) in rows]
+        for c, got, sv, clv in zip(calls, got_all, sv_all, cl_all):
+            if c['fn'] == 'aggregate':
+                continue
+            n_src += 1
+            code, cls = sv[0], [list(x) for x in sv[1]]
+            cj = {k2: (str(v) if isinstance(v, Fraction) else v) for k2, v in c.items()}
+            site = 'cut_straight' if c['fn'] == 'straight' else 'cut_balanced'
+            if code in (4, 5, 6, 8):
+                if len(ctx.proof_broken) < 12:
+                    ctx.proof_broken.append('the term regenerated from %s does not run under the semantics of Model/PyImp.v '
+                                            '(code %d) on %s %s' % (site, code, jrows, cj))
+                continue
+            if clv is not None:
+                same = (clv[0] == 'Ok' and code == 0 and [list(x) for x in clv[1]] == cls) or \
+                       (clv[0] == 'Err' and code != 0 and (code == 7 or clv[1][0] == SRC_ERR[code]))
+                if not same and len(ctx.proof_broken) < 12:
+                    ctx.proof_broken.append('source term and model disagree on %s %s %s: %r vs %r' % (site, jrows, cj, sv, clv))
+            if 'ok' in got:
+                want = set(frozenset(x) for x in clusters_of(got['ok']['labels']).values())
+                have = set(frozenset(x) for x in cls) if code == 0 else None
+                if have != want:
+                    ctx.violation(site, 'the implementation returns another partition than the statements regenerated from its '
+                                  'own source (run under the semantics of Model/PyImp.v)',
+                                  case=dict(n=n, dendrogram=jrows, call=cj),
+                                  expected=sorted(sorted(x) for x in cls) if code == 0 else SRC_ERR.get(code),
+                                  observed=got, defect='source_term_mismatch', fn=c['fn'], family=fam)
+            elif code == 0 and c['ret']:
+                pass        # the core returned; the exception comes from get_labels (judged against the model in pass B)
+            else:
+                if code == 0 or (code != 7 and SRC_ERR.get(code) != got.get('err')):
+                    ctx.violation(site, 'the implementation raises where the statements regenerated from its own source return '
+                                  '(or raise another error)', case=dict(n=n, dendrogram=jrows, call=cj),
+                                  expected=sorted(sorted(x) for x in cls) if code == 0 else SRC_ERR.get(code),
+                                  observed=got, defect='source_term_mismatch', fn=c['fn'], family=fam)
+    ctx.extra['source_terms_evaluated'] = ctx.extra.get('source_terms_evaluated', 0) + n_src
 
 
 def thresholds_for(rows, rng, limit):
@@ -502,6 +586,7 @@ def run(ctx, scratch):
         exprsA.append('let D := %s in [%s]' % (cdend(rows), '; '.join(clusters_expr(c) for c in calls)))
     # (model dead -- recorded in ctx.proof_broken by safe_coq_eval: no model diff, the property oracles below still judge every output)
     valsA = safe_coq_eval(ctx, 'c08a', IMPORTS, exprsA, prelude=PRELUDE, shard=60)
+    check_source_terms(ctx, plan, impl_out, valsA)
     exprsB = []
     n_oracle_fallback = 0
     for (fam, n, rows, calls), got_all, cl_all in zip(plan, impl_out, valsA or []):
